@@ -3,6 +3,7 @@
 package main
 
 import (
+	"strconv"
 	"strings"
 	"sync"
 	"time"
@@ -35,8 +36,14 @@ type uiItem struct {
 	gate   *uiGate
 }
 
-func (f *uiItem) String(w int) string  { return "full " + itoa3(f.id) + "\nsecond line" }
-func (f *uiItem) Preview(w int) string { return "preview " + itoa3(f.id) }
+// texts depend on the item and on the width they were asked for, and have 1..3 lines, so that the frame comparison
+// sees which width reached which item and the centring has to trim and pad
+func (f *uiItem) String(w int) string {
+	return "full " + itoa3(f.id) + " w" + strconv.Itoa(w) + strings.Repeat("\nmore of "+itoa3(f.id), f.id%3)
+}
+func (f *uiItem) Preview(w int) string {
+	return "preview " + itoa3(f.id) + " w" + strconv.Itoa(w) + strings.Repeat("\nrest", f.id%2)
+}
 func (f *uiItem) Name() string         { return "item " + itoa3(f.id) }
 func (f *uiItem) Timestamp() time.Time { return time.Unix(int64(f.id), 0) }
 func (f *uiItem) Children() pub.Container {
@@ -280,10 +287,12 @@ func init() {
 
 		var fmu sync.Mutex
 		frames, lastLines := 0, 0
+		lastFrame := ""
 		s := ui.NewState(width, height, func(f string) {
 			fmu.Lock()
 			frames++
 			lastLines = strings.Count(f, "\n") + 1
+			lastFrame = f
 			fmu.Unlock()
 		})
 		pageIDs := map[any]int{}
@@ -320,7 +329,7 @@ func init() {
 		observe := func() {
 			snap := quiesce()
 			fmu.Lock()
-			fr, ll := frames, lastLines
+			fr, ll, lf := frames, lastLines, lastFrame
 			fmu.Unlock()
 			pid := -1
 			if key := s.VerifPageKey(); key != nil {
@@ -334,6 +343,11 @@ func init() {
 			out = append(out, snap.Mode)
 			out = putText(out, snap.Buffer)
 			out = append(out, pid, itemID(snap.Current), snap.Lower, snap.Upper, b2i(snap.LoadingUp), b2i(snap.LoadingDown), fr, ll)
+			// the frame on the screen; pages of real (failed) fetches show library error text and are not compared
+			if itemID(snap.Current) == 999 {
+				lf = ""
+			}
+			out = putText(out, lf)
 		}
 		s.VerifOpen(items[root])
 		observe()
@@ -343,15 +357,19 @@ func init() {
 			case k < 256:
 				s.Update(byte(k))
 			case k == 256:
-				gate.mu.Lock()
-				gate.open = make(chan struct{})
-				gate.mu.Unlock()
-				gated = true
+				if !gated {
+					gate.mu.Lock()
+					gate.open = make(chan struct{})
+					gate.mu.Unlock()
+					gated = true
+				}
 			case k == 257:
-				gate.mu.Lock()
-				close(gate.open)
-				gate.mu.Unlock()
-				gated = false
+				if gated {
+					gate.mu.Lock()
+					close(gate.open)
+					gate.mu.Unlock()
+					gated = false
+				}
 			case k == 258:
 				w := r.next()
 				h := r.next()
